@@ -2,6 +2,8 @@ package world
 
 import (
 	"bytes"
+	"encoding/xml"
+	"fmt"
 	"image"
 	"image/color"
 	"image/gif"
@@ -9,6 +11,9 @@ import (
 	"image/png"
 	"os"
 	"path/filepath"
+	"regexp"
+	"sort"
+	"strings"
 
 	"github.com/zerx-lab/wordZero/pkg/document"
 	"github.com/zerx-lab/wordZero/pkg/style"
@@ -286,8 +291,132 @@ func (w *World) applyMisc(ds *Doc, op sim.Op, o *Obs) bool {
 		_, o.Err = style.NewQuickStyleAPI(d.GetStyleManager()).CreateQuickStyle(cfg)
 	case "style.rm":
 		d.GetStyleManager().RemoveStyle(op.Str(0))
+	case "style.edit": // S[0]=id S[1]=value I[0]=attribute: change a registered style in place through the public structs
+		st := d.GetStyleManager().GetStyle(op.Str(0))
+		if st == nil {
+			o.Res = "nil"
+			return true
+		}
+		val := op.Str(1)
+		switch op.Int(0) % 6 {
+		case 0:
+			if st.RunPr == nil {
+				st.RunPr = &style.RunProperties{}
+			}
+			if st.RunPr.Color == nil {
+				st.RunPr.Color = &style.Color{Val: val}
+			} else {
+				st.RunPr.Color.Val = val
+			}
+		case 1:
+			if st.RunPr == nil {
+				st.RunPr = &style.RunProperties{}
+			}
+			if st.RunPr.Bold == nil {
+				st.RunPr.Bold = &style.Bold{}
+			} else {
+				st.RunPr.Bold = nil
+			}
+		case 2:
+			if st.RunPr == nil {
+				st.RunPr = &style.RunProperties{}
+			}
+			if st.RunPr.FontSize == nil {
+				st.RunPr.FontSize = &style.FontSize{Val: itoa(10 + len(val))}
+			} else {
+				st.RunPr.FontSize.Val = itoa(10 + len(val))
+			}
+		case 3:
+			if st.ParagraphPr == nil {
+				st.ParagraphPr = &style.ParagraphProperties{}
+			}
+			if st.ParagraphPr.Spacing == nil {
+				st.ParagraphPr.Spacing = &style.Spacing{Before: itoa(20 * len(val))}
+			} else {
+				st.ParagraphPr.Spacing.Before = itoa(20 * len(val))
+			}
+		case 4:
+			if st.Name == nil {
+				st.Name = &style.StyleName{Val: val}
+			} else {
+				st.Name.Val = val
+			}
+		default:
+			if st.ParagraphPr == nil {
+				st.ParagraphPr = &style.ParagraphProperties{}
+			}
+			if st.ParagraphPr.Justification == nil {
+				st.ParagraphPr.Justification = &style.Justification{Val: "center"}
+			} else {
+				st.ParagraphPr.Justification.Val = "right"
+			}
+		}
+	case "obs": // I[0]=1: include the per-document note counts
+		o.Res = Observe(d, op.Int(0) != 0)
 	default:
 		return false
 	}
 	return true
+}
+
+var noteMarker = regexp.MustCompile(`^\[(尾注)?[0-9]+\]$`)
+
+// Observe reads a document through its accessors and returns the results as
+// "key=value;" fields (sorted by construction): what a caller can see without
+// saving.
+func Observe(d *document.Document, counts bool) string {
+	var b bytes.Buffer
+	if d.Body == nil {
+		return "body=nil;"
+	}
+	ps := d.Body.GetParagraphs()
+	ts := d.Body.GetTables()
+	var text, markers bytes.Buffer
+	for _, p := range ps {
+		for i := range p.Runs {
+			t := p.Runs[i].Text.Content
+			if noteMarker.MatchString(t) { // the visible number of a note reference
+				markers.WriteString(t)
+				t = "[#]"
+			}
+			text.WriteString(t)
+		}
+		text.WriteByte('\n')
+	}
+	var cells bytes.Buffer
+	for _, t := range ts {
+		fmt.Fprintf(&cells, "%dx%d:", t.GetRowCount(), t.GetColumnCount())
+	}
+	fmt.Fprintf(&b, "elems=%d;paras=%d;tables=%d;shape=%s;text=%s;", len(d.Body.Elements), len(ps), len(ts), cells.String(), sim.Digest(text.Bytes()))
+	fmt.Fprintf(&b, "markers=%s;", sim.Digest(markers.Bytes()))
+	if counts {
+		fmt.Fprintf(&b, "fncount=%d;encount=%d;", d.GetFootnoteCount(), d.GetEndnoteCount())
+	}
+	hs := d.ListHeadings()
+	var ht bytes.Buffer
+	for _, h := range hs {
+		fmt.Fprintf(&ht, "%d:%s|", h.Level, h.Text)
+	}
+	fmt.Fprintf(&b, "headings=%d/%s;", len(hs), sim.Digest(ht.Bytes()))
+	hc := d.GetHeadingCount()
+	fmt.Fprintf(&b, "hcount=")
+	for l := 1; l <= 9; l++ {
+		fmt.Fprintf(&b, "%d,", hc[l])
+	}
+	b.WriteByte(';')
+	if s := d.GetPageSettings(); s != nil {
+		fmt.Fprintf(&b, "page=%s/%s/%.2fx%.2f/%.2f,%.2f,%.2f,%.2f;", s.Size, s.Orientation, s.CustomWidth, s.CustomHeight, s.MarginTop, s.MarginRight, s.MarginBottom, s.MarginLeft)
+	}
+	if pr, err := d.GetDocumentProperties(); err == nil && pr != nil {
+		fmt.Fprintf(&b, "title=%s;", sim.Digest([]byte(pr.Title+"|"+pr.Creator+"|"+pr.Subject)))
+	}
+	all := d.GetStyleManager().GetAllStyles()
+	var sts []string
+	for _, st := range all {
+		x, _ := xml.Marshal(st)
+		sts = append(sts, string(x))
+	}
+	sort.Strings(sts)
+	fmt.Fprintf(&b, "styles=%d/%s;", len(all), sim.Digest([]byte(strings.Join(sts, "\n"))))
+	return b.String()
 }
